@@ -39,7 +39,20 @@ extern "C" const char* __ubsan_default_options()
     return "print_stacktrace=1:halt_on_error=1";
 }
 
+// coverage builds (tools/coverage.sh): workers leave through _exit, so the counters are dumped explicitly
+#ifdef VERIF_COV
+extern "C" void __gcov_dump(void);
+#endif
+
 namespace mc {
+
+inline void worker_exit(int code)
+{
+#ifdef VERIF_COV
+    __gcov_dump();
+#endif
+    _exit(code);
+}
 
 constexpr size_t CASE_MAX = 1 << 16;
 constexpr int MAXFAIL = 32;
@@ -553,7 +566,7 @@ public:
                 }
                 shm[i]->active = 0;
                 fflush(stdout);
-                _exit(0);
+                worker_exit(0);
             }
             slots[i].pid = pid;
             slots[i].errfd = fd;
